@@ -73,6 +73,7 @@ func c01Specs(tier string) []seqSpec {
 		add("snappy/bytewise", c01Alpha, 3)
 		add("tinycache/bytewise", c01Alpha, 3)
 		add("throttle/bytewise", c01Alpha, 3) // writers wait for the table compaction at two level-0 tables
+		add("tightcomp/bytewise", c01Alpha, 4)
 		for _, k := range []string{"shortlex", "revtail", "xormap", "lazy"} {
 			addCmp("flushy", k, 4)
 			addCmp("wide", k, 3)
@@ -99,6 +100,7 @@ func c01Specs(tier string) []seqSpec {
 		add("tinycache/bytewise", c01Alpha, 4)
 		add("seeky/bytewise", c01Alpha, 4)
 		add("throttle/bytewise", c01Alpha, 4)
+		add("tightcomp/bytewise", c01Alpha, 5)
 		for _, k := range []string{"shortlex", "revtail", "xormap", "lazy"} {
 			addCmp("flushy", k, 5)
 			addCmp("wide", k, 5)
